@@ -1222,3 +1222,9 @@ def replay_history(params: tuple, history: List[Any]) -> Tuple[List[dict], Any]:
     if r1.digest != r2.digest:
         return [V("harness-problem", "replay-divergence", "two replays of the same case differ")], r1.sample
     return r1.violations, r1.sample
+
+
+# wave h documentation (what was added to the enumeration; see DESIGN.md 11.0)
+_WAVE_H = '+ corpus session h1uplist (an Upgrade protocol list next to websocket: every byte mutated, also into obs-text)'
+RULE = RULE + " " + _WAVE_H
+BOUNDS_DOC = {k: v + " " + _WAVE_H for k, v in BOUNDS_DOC.items()}
